@@ -5,6 +5,7 @@ from .cfg import CFG, facts_at
 from .poly import P, floor, TermBuilder, Unsupported
 from .report import Incomplete
 from .rules_template import bind_call
+from .npcanon import npcall, literal_perm, calls as npcalls
 
 CT = 'synapgrad.conv_tools'
 GEOM = {'kernel_size', 'stride', 'padding', 'dilation', 'step', 'output_size'}
@@ -164,12 +165,6 @@ def check_empty(model, R, P_):
 
 
 # ------------------------------------------------------------------------------------------------ C16 pairing / layout
-def _literal_perm(call):
-    if isinstance(call, ast.Call) and isinstance(call.func, ast.Attribute) and call.func.attr == 'transpose' and call.args and all(isinstance(a, ast.Constant) for a in call.args):
-        return tuple(a.value for a in call.args)
-    return None
-
-
 def check_pairs(model, R, P_):
     R.rule(P_ + '.PAIR-INDEX', 'im2col gathers and col2im scatter-adds through the index triple of the same helper called with the same argument roles', floor=3)
     R.rule(P_ + '.PAIR-SLICE', 'im2col_v2 and col2im_v2 use polynomially equal window slices and the same column index', floor=7)
@@ -246,9 +241,9 @@ def check_pairs(model, R, P_):
     R.ob(P_ + '.PAIR-FAST', fc.qualname, 'unfold layout: moveaxis(0 -> 2) / moveaxis(2 -> 0)', ok, 'the window axis move of im2col_fast must be undone by the inverse move in col2im_fast', fc.loc)
     t_i = [n for n in ast.walk(fi.node) if isinstance(n, ast.Attribute) and n.attr == 'T']
     t_c = [n for n in ast.walk(fc.node) if isinstance(n, ast.Attribute) and n.attr == 'T']
-    rs_i = [norm(c) for c in ast.walk(fi.node) if isinstance(c, ast.Call) and isinstance(c.func, ast.Attribute) and c.func.attr == 'reshape']
-    rs_c = [norm(c) for c in ast.walk(fc.node) if isinstance(c, ast.Call) and isinstance(c.func, ast.Attribute) and c.func.attr == 'reshape']
-    ok = len(t_i) == 1 and len(t_c) == 1 and any('N * L, C * kernel_size[0] * kernel_size[1]' in r for r in rs_i) and sum('lH, lW, N, C, kernel_size[0], kernel_size[1]' in r for r in rs_c) == 2
+    rs_i = [norm(npcall(model, fi, c)[1].get('newshape')).replace(' ', '') for c in npcalls(model, fi, 'reshape') if npcall(model, fi, c)[1].get('newshape') is not None]
+    rs_c = [norm(npcall(model, fc, c)[1].get('newshape')).replace(' ', '') for c in npcalls(model, fc, 'reshape') if npcall(model, fc, c)[1].get('newshape') is not None]
+    ok = len(t_i) == 1 and len(t_c) == 1 and '(N*L,C*kernel_size[0]*kernel_size[1])' in rs_i and rs_c.count('(lH,lW,N,C,kernel_size[0],kernel_size[1])') == 2
     R.ob(P_ + '.PAIR-FAST', fc.qualname, '2-D layout: reshape(N*L, CkHkW).T / .T.reshape(lH, lW, N, C, kH, kW)', ok, 'the column-matrix layout and its inverse', fc.loc)
     # ---- PADCROP
     for q in ('col2im', 'col2im_v2'):
@@ -271,19 +266,41 @@ def check_pairs(model, R, P_):
     # ---- LAYOUT2D
     for q in ('im2col', 'im2col_v2'):
         f = model.func(CT + '.' + q)
-        perms = [(_literal_perm(c), c) for c in ast.walk(f.node) if _literal_perm(c) is not None]
-        resh = [norm(c) for c in ast.walk(f.node) if isinstance(c, ast.Call) and isinstance(c.func, ast.Attribute) and c.func.attr == 'reshape' and 'kernel_size[0] * kernel_size[1] * C' in norm(c)]
-        ok = [p for p, _ in perms] == [(1, 2, 0)] and len(resh) == 1 and resh[0].endswith(', -1)')
+        perms = [(literal_perm(model, f, c), c) for c in ast.walk(f.node) if isinstance(c, ast.Call) and literal_perm(model, f, c) is not None]
+        resh = []
+        for c in npcalls(model, f, 'reshape'):
+            ns = npcall(model, f, c)[1].get('newshape')
+            if ns is not None and isinstance(ns, ast.Tuple) and len(ns.elts) == 2 and norm(ns.elts[1]) == '-1':
+                try:
+                    t = TermBuilder({}, lambda e: P.atom(norm(e)) if isinstance(e, (ast.Attribute, ast.Subscript)) else None).build(ns.elts[0])
+                    resh.append((t, c))
+                except Unsupported:
+                    pass
+        want = P.atom('C') * P.atom('kernel_size[0]') * P.atom('kernel_size[1]')
+        ok = [p for (p, _), _ in perms] == [(1, 2, 0)] and len(resh) == 1 and resh[0][0] == want
+        # the reshape is applied to the transposed array
+        if ok:
+            a0 = npcall(model, f, resh[0][1])[1].get('a')
+            ok = any(x is perms[0][1] for x in ast.walk(a0)) or (isinstance(a0, ast.Name) and any(isinstance(n, ast.Assign) and norm(n.targets[0]) == a0.id and any(x is perms[0][1] for x in ast.walk(n.value)) for n in body_walk(f.node)))
         st = _stmt(f, perms[0][1]) if perms else None
         cfg = CFG(f.node)
         guard_ok = st is not None and ('as_unfold', False) in {(t, p) for t, p, _ in facts_at(cfg, st)}
-        R.ob(P_ + '.LAYOUT2D', f.qualname, '2-D layout %s' % resh, ok and guard_ok, 'the (C*kH*kW, N*L) matrix is transpose(1, 2, 0).reshape(C*kH*kW, -1) of the unfold layout, only when as_unfold is False', f.loc)
+        R.ob(P_ + '.LAYOUT2D', f.qualname, '2-D layout transpose%s then reshape(C*kH*kW, -1)' % ([p for (p, _), _ in perms],), ok and guard_ok,
+             'the (C*kH*kW, N*L) matrix is transpose(1, 2, 0).reshape(C*kH*kW, -1) of the unfold layout, only when as_unfold is False', f.loc)
     for q in ('col2im', 'col2im_v2'):
         f = model.func(CT + '.' + q)
-        perms = [p for p in (_literal_perm(c) for c in ast.walk(f.node)) if p is not None]
-        resh = [norm(c) for c in ast.walk(f.node) if isinstance(c, ast.Call) and isinstance(c.func, ast.Attribute) and c.func.attr == 'reshape' and 'C * kernel_size[0] * kernel_size[1], -1, N' in norm(c)]
-        ok = perms == [(2, 0, 1)] and len(resh) == 1
-        R.ob(P_ + '.LAYOUT2D', f.qualname, 'inverse 2-D layout %s %s' % (resh, perms), ok, 'the column matrix is brought back by reshape(C*kH*kW, -1, N).transpose(2, 0, 1) (inverse of transpose(1, 2, 0))', f.loc)
+        perms = [literal_perm(model, f, c)[0] for c in ast.walk(f.node) if isinstance(c, ast.Call) and literal_perm(model, f, c) is not None]
+        resh = []
+        for c in npcalls(model, f, 'reshape'):
+            ns = npcall(model, f, c)[1].get('newshape')
+            if ns is not None and isinstance(ns, ast.Tuple) and len(ns.elts) == 3 and norm(ns.elts[1]) == '-1' and norm(ns.elts[2]) == 'N':
+                try:
+                    resh.append(TermBuilder({}, lambda e: P.atom(norm(e)) if isinstance(e, (ast.Attribute, ast.Subscript)) else None).build(ns.elts[0]))
+                except Unsupported:
+                    pass
+        want = P.atom('C') * P.atom('kernel_size[0]') * P.atom('kernel_size[1]')
+        ok = perms == [(2, 0, 1)] and len(resh) == 1 and resh[0] == want
+        R.ob(P_ + '.LAYOUT2D', f.qualname, 'inverse 2-D layout reshape(C*kH*kW, -1, N) then transpose%s' % perms, ok, 'the column matrix is brought back by reshape(C*kH*kW, -1, N).transpose(2, 0, 1) (inverse of transpose(1, 2, 0))', f.loc)
 
 
 # ------------------------------------------------------------------------------------------------ STRIDED
@@ -300,7 +317,6 @@ def check_strided(model, R, P_):
         st = _stmt(f, asv[0])
         conds = {(t, p) for t, p, _ in facts_at(cfg, cont[0])}
         guard_ok = not conds or conds == {("a.flags['C_CONTIGUOUS']", False)}
-        # dominance of the guard (the If, or the statement itself when unconditional)
         top = cont[0]
         for s_ in f.node.body:
             if any(x is cont[0] for x in ast.walk(s_)):
